@@ -176,7 +176,8 @@ impl ModelGen {
         if r.chance(1, 5) {
             let blk = match r.below(4) { 0 => Exp::Abs(b(self.affine(r, d))), 1 => Exp::Max(vec![self.affine(r, d), self.affine(r, d)]), 2 => Exp::Min(vec![self.affine(r, d), self.affine(r, d)]),
                                          _ => Exp::Max(vec![Exp::Min(vec![self.affine(r, d), self.affine(r, d)]), self.affine(r, d)]) };
-            let c = num(*r.pick(&[-1.0, -2.0, 2.0, -0.5, 3.0, -4.0]));
+            // tiny factors too: their sign still decides what the row needs from the block
+            let c = num(*r.pick(&[-1.0, -2.0, 2.0, -0.5, 3.0, -4.0, -0.000005, 0.000004]));
             let scaled = match r.below(5) { 0 => bin(BinOp::Mul, blk, c), 1 => bin(BinOp::Mul, c, blk), 2 | 3 => bin(BinOp::Div, blk, c), _ => Exp::UnOp(UnOp::Neg, b(bin(BinOp::Div, blk, c))) };
             let k = num(*r.pick(KS));
             return if r.chance(2, 3) { Constraint::new(scaled, self.cmp(r), k, name) } else { Constraint::new(k, self.cmp(r), scaled, name) };
@@ -194,7 +195,7 @@ impl ModelGen {
             // an objective whose direction reaches a block only through a constant factor or divisor, written on either side
             else if self.arith && r.chance(1, 5) {
                 let blk = match r.below(3) { 0 => Exp::Abs(b(self.affine(r, &d))), 1 => Exp::Max(vec![self.affine(r, &d), self.affine(r, &d)]), _ => Exp::Min(vec![self.affine(r, &d), self.affine(r, &d)]) };
-                let c = num(*r.pick(&[-1.0, -2.0, 2.0, -0.5, 3.0]));
+                let c = num(*r.pick(&[-1.0, -2.0, 2.0, -0.5, 3.0, -0.000005, 0.000004, -0.0000025]));
                 let scaled = match r.below(4) { 0 => bin(BinOp::Mul, blk, c), 1 => bin(BinOp::Mul, c, blk), 2 => bin(BinOp::Div, blk, c), _ => Exp::UnOp(UnOp::Neg, b(bin(BinOp::Mul, blk, c))) };
                 bin(BinOp::Add, scaled, self.affine(r, &d)) }
             else if self.arith { self.arith(r, &d, 2) } else { self.affine(r, &d) };
